@@ -15,8 +15,11 @@ use vstd::string::*;
 use vstd::utf8::*;
 use crate::writer_::Indentation;
 use crate::se_::{XmlName, SeError, is_xml_name};
-use crate::seesc_::{QuoteLevel, QuoteTarget};
+use crate::seesc_::{QuoteLevel, QuoteTarget, escape_list, p_list};
+use crate::escfn_::{spec_escape, cow_str_bytes};
 use core::result::Result;
+/// byte strings (the serializer has a type of its own called `Seq`)
+pub type BSeq = vstd::seq::Seq<u8>;
 use std::fmt;
 use std::str::{from_utf8, Utf8Error};
 
@@ -24,7 +27,7 @@ use std::str::{from_utf8, Utf8Error};
 /// a failed one may have appended anything (the serializer returns the error and the document is abandoned)
 pub trait Write {
     /// everything written so far
-    spec fn out(&self) -> Seq<u8>;
+    spec fn out(&self) -> BSeq;
     fn write_str(&mut self, s: &str) -> (r: Result<(), core::fmt::Error>)
         ensures r is Ok ==> final(self).out() == old(self).out() + s.spec_bytes();
     fn write_char(&mut self, c: char) -> (r: Result<(), core::fmt::Error>)
@@ -32,7 +35,7 @@ pub trait Write {
 }
 /// std: `impl<W: fmt::Write + ?Sized> fmt::Write for &mut W` forwards to the referent
 impl<'a, W: Write> Write for &'a mut W {
-    open spec fn out(&self) -> Seq<u8> { (**self).out() }
+    open spec fn out(&self) -> BSeq { (**self).out() }
     /// ... and keeps referring to the same writer
     fn write_str(&mut self, s: &str) -> (r: Result<(), core::fmt::Error>)
         ensures *final(*final(self)) == *final(*old(self))
@@ -42,6 +45,9 @@ impl<'a, W: Write> Write for &'a mut W {
     { (**self).write_char(c) }
 }
 
+/// dereferencing a Cow<str> gives the string it holds (std: Deref for Cow)
+pub axiom fn axiom_cow_str_all()
+    ensures forall|c: &Cow<'_, str>| (#[trigger] cow_target(c))@ == c@;
 /// std::str::from_utf8 (documented contract): the same bytes as a string, or an error if they are not UTF-8
 pub assume_specification<'a>[ core::str::from_utf8 ](v: &'a [u8]) -> (r: Result<&'a str, core::str::Utf8Error>)
     ensures match r { Ok(s) => s.spec_bytes() == v@, Err(_) => !valid_utf8(v@) };
@@ -73,6 +79,63 @@ impl From<core::str::Utf8Error> for SeError {
 //@end
 }
 
+/// N15: the text of an error message (not interpreted by any contract)
+#[verifier::external_body]
+pub fn errmsg_() -> Cow<'static, str> { Cow::Borrowed("") }
+#[verifier::external_body]
+pub fn errstr_() -> String { String::new() }
+
+/// Model of serde::Serialize / serde::Serializer (A-serde: hand transcription of the trait signatures of the methods that
+/// are brought under contract; every method has an unspecified default so that an implementor lists only the methods
+/// whose real text is extracted; `requires self.ok()` on every method is the TYPE-INVARIANT assumption A-serde: the fields `ok()`
+/// speaks about are private to the crate, every crate function that changes them is verified to preserve it, and foreign
+/// `Serialize` code can only pass the values on. Verus admits no cycle between traits, so the methods that are generic over `T: Serialize`
+/// -- serialize_some, serialize_newtype_struct, serialize_newtype_variant -- are verified as inherent methods with
+/// `Self::Ok`/`Self::Error` written out: a declared rewrite). `ok()` stands for the representation invariant an implementor needs; a `Serialize`
+/// value may do anything with the serializer it is given -- nothing is assumed about it.
+pub trait Serialize {
+    fn serialize<S: Serializer>(&self, serializer: S) -> (r: Result<S::Ok, S::Error>)
+        requires serializer.ok();
+}
+pub trait Serializer: Sized {
+    type Ok;
+    type Error;
+    type SerializeSeq;
+    spec fn ok(&self) -> bool;
+    #[verifier::external_body]
+    fn serialize_str(self, value: &str) -> Result<Self::Ok, Self::Error> requires self.ok() { unimplemented!() }
+    #[verifier::external_body]
+    fn serialize_none(self) -> Result<Self::Ok, Self::Error> requires self.ok() { unimplemented!() }
+    #[verifier::external_body]
+    fn serialize_unit(self) -> Result<Self::Ok, Self::Error> requires self.ok() { unimplemented!() }
+    #[verifier::external_body]
+    fn serialize_unit_struct(self, name: &'static str) -> Result<Self::Ok, Self::Error> requires self.ok() { unimplemented!() }
+    #[verifier::external_body]
+    fn serialize_unit_variant(self, name: &'static str, variant_index: u32, variant: &'static str) -> Result<Self::Ok, Self::Error> requires self.ok() { unimplemented!() }
+    #[verifier::external_body]
+    fn serialize_seq(self, len: Option<usize>) -> Result<Self::SerializeSeq, Self::Error> requires self.ok() { unimplemented!() }
+}
+/// Model of serde::ser::SerializeSeq
+pub trait SerializeSeq {
+    type Ok;
+    type Error;
+    spec fn ok(&self) -> bool;
+    fn serialize_element<T: ?Sized + Serialize>(&mut self, value: &T) -> (r: Result<(), Self::Error>)
+        requires old(self).ok();
+    fn end(self) -> Result<Self::Ok, Self::Error> requires self.ok();
+}
+
+//@extract de::TEXT_KEY | src/de/mod.rs :: const TEXT_KEY | serves=C13,C19 features=serialize
+ pub exec const TEXT_KEY: &'static str
+    ensures TEXT_KEY@ == "$text"@
+ { "$text" }
+//@end
+//@extract de::VALUE_KEY | src/de/mod.rs :: const VALUE_KEY | serves=C13,C19 features=serialize
+ pub exec const VALUE_KEY: &'static str
+    ensures VALUE_KEY@ == "$value"@
+ { "$value" }
+//@end
+
 /// the UTF-8 encodings of the ASCII characters the tag writers emit
 pub proof fn lemma_nl()
     ensures encode_utf8(seq!['\n']) == seq![0x0au8], encode_utf8(seq!['<']) == seq![0x3cu8], encode_utf8(seq!['>']) == seq![0x3eu8],
@@ -82,10 +145,10 @@ pub proof fn lemma_nl()
 }
 /// a sequence of `n` bytes that are all `c` is THE sequence of n times c
 pub proof fn lemma_fill(c: u8, n: nat)
-    ensures forall|s: Seq<u8>| s.len() == n && (forall|k: int| 0 <= k < s.len() ==> s[k] == c) ==> s == #[trigger] (seq![0x0au8] + s).subrange(1, 1 + n as int) && s == Seq::new(n, |k: int| c)
+    ensures forall|s: BSeq| s.len() == n && (forall|k: int| 0 <= k < s.len() ==> s[k] == c) ==> s == #[trigger] (seq![0x0au8] + s).subrange(1, 1 + n as int) && s == BSeq::new(n, |k: int| c)
 {
-    assert forall|s: Seq<u8>| s.len() == n && (forall|k: int| 0 <= k < s.len() ==> s[k] == c) implies s == #[trigger] (seq![0x0au8] + s).subrange(1, 1 + n as int) && s == Seq::new(n, |k: int| c) by {
-        assert(s =~= Seq::new(n, |k: int| c));
+    assert forall|s: BSeq| s.len() == n && (forall|k: int| 0 <= k < s.len() ==> s[k] == c) implies s == #[trigger] (seq![0x0au8] + s).subrange(1, 1 + n as int) && s == BSeq::new(n, |k: int| c) by {
+        assert(s =~= BSeq::new(n, |k: int| c));
         assert(s =~= (seq![0x0au8] + s).subrange(1, 1 + n as int));
     }
 }
@@ -163,8 +226,8 @@ impl<'i> Indent<'i> {
     }
     pub open spec fn wf(&self) -> bool { self.st() matches Some(i) ==> i.inv() }
     /// C19: ALL that indentation ever writes: nothing, or one line break and the current indent
-    pub open spec fn bytes(&self) -> Seq<u8> {
-        match self.st() { None => Seq::empty(), Some(i) => nl_indent(i.indent_char, i.current_indent_len as nat) }
+    pub open spec fn bytes(&self) -> BSeq {
+        match self.st() { None => BSeq::empty(), Some(i) => nl_indent(i.indent_char, i.current_indent_len as nat) }
     }
 //@extract se::Indent::borrow | src/se/mod.rs :: impl<'i> Indent<'i> :: fn borrow | serves=C19 features=serialize
  pub fn borrow(&mut self) -> (r: Indent)
@@ -255,6 +318,7 @@ impl<'i> Indent<'i> {
 //@end
 
 //@extract content::ContentSerializer | src/se/content.rs :: struct ContentSerializer | serves=C13,C19 features=serialize
+//@rewrite pub(super) indent ==> pub indent
  pub struct ContentSerializer<'w, 'i, W: Write> {
     pub writer: &'w mut W,
     /// Defines which XML characters need to be escaped in text content
@@ -263,7 +327,7 @@ impl<'i> Indent<'i> {
     /// no indentation at all, but `write_indent == false` means only, that indent
     /// writing is disabled in this instantiation of `ContentSerializer`, but
     /// child serializers should have access to the actual state of indentation.
-    pub(super) indent: Indent<'i>,
+    pub indent: Indent<'i>,
     /// If `true`, then current indent will be written before writing the content,
     /// but only if content is not empty. This flag is reset after writing indent.
     pub write_indent: bool,
@@ -281,9 +345,9 @@ impl<'i> Indent<'i> {
 }
 //@end
 /// `<name>`, `</name>`, and the empty element in its two spellings
-pub open spec fn tag_open(n: Seq<u8>) -> Seq<u8> { seq![0x3cu8] + n + seq![0x3eu8] }
-pub open spec fn tag_close(n: Seq<u8>) -> Seq<u8> { seq![0x3cu8, 0x2fu8] + n + seq![0x3eu8] }
-pub open spec fn tag_empty(n: Seq<u8>, expand: bool) -> Seq<u8> {
+pub open spec fn tag_open(n: BSeq) -> BSeq { seq![0x3cu8] + n + seq![0x3eu8] }
+pub open spec fn tag_close(n: BSeq) -> BSeq { seq![0x3cu8, 0x2fu8] + n + seq![0x3eu8] }
+pub open spec fn tag_empty(n: BSeq, expand: bool) -> BSeq {
     if expand { tag_open(n) + tag_close(n) } else { seq![0x3cu8] + n + seq![0x2fu8, 0x3eu8] }
 }
 pub proof fn lemma_lits()
@@ -297,7 +361,7 @@ pub proof fn lemma_lits()
 }
 impl<'w, 'i, W: Write> ContentSerializer<'w, 'i, W> {
     /// C19: what this serializer writes in front of its first markup: the indent if the flag is set, else nothing
-    pub open(crate) spec fn pre(&self) -> Seq<u8> { if self.write_indent { self.indent.bytes() } else { Seq::empty() } }
+    pub open(crate) spec fn pre(&self) -> BSeq { if self.write_indent { self.indent.bytes() } else { BSeq::empty() } }
 //@extract content::ContentSerializer::into_simple_type_serializer_impl | src/se/content.rs :: impl<'w, 'i, W: Write> ContentSerializer<'w, 'i, W> :: fn into_simple_type_serializer_impl | serves=C13 features=serialize
  pub(crate) fn into_simple_type_serializer_impl(self) -> (r: SimpleTypeSerializer<&'w mut W>)
         // text content: the same writer, the Text escaping rules, the same quoting level
@@ -439,6 +503,390 @@ impl<'w, 'i, W: Write> ContentSerializer<'w, 'i, W> {
             self.write_indent = false;
         }
         Ok(())
+    }
+//@end
+}
+
+//@extract element::ElementSerializer | src/se/element.rs :: struct ElementSerializer | serves=C13,C19 features=serialize
+//@rewrite pub(super) key ==> pub key
+ pub struct ElementSerializer<'w, 'k, W: Write> {
+    /// The inner serializer that contains the settings and mostly do the actual work
+    pub ser: ContentSerializer<'w, 'k, W>,
+    /// Tag name used to wrap serialized types except enum variants which uses the variant name
+    pub key: XmlName<'k>,
+}
+//@end
+
+//@extract content::Seq | src/se/content.rs :: struct Seq | serves=C19 features=serialize
+ pub struct Seq<'w, 'k, W: Write> {
+    pub ser: ContentSerializer<'w, 'k, W>,
+    /// Classification of the result of the last serialized element.
+    pub last: WriteResult,
+}
+//@end
+
+// SimpleTypeSerializer<W> is verified at W := &mut W0 -- what ContentSerializer hands it (and, W0 being any writer, also the
+// `&mut &mut W0` of attribute values): only there can "the SAME writer comes back" be stated (declared monomorphisation).
+impl<'w, W: Write> SimpleTypeSerializer<&'w mut W> {
+//@extract simple_type::SimpleTypeSerializer::write_str | src/se/simple_type.rs :: impl<W: Write> SimpleTypeSerializer<W> :: fn write_str | serves=C13 features=serialize
+    fn write_str(&mut self, value: &str) -> (r: Result<(), SeError>)
+        ensures final(self).target == old(self).target, final(self).level == old(self).level,
+            *final(final(self).writer) == *final(old(self).writer),
+            r is Ok ==> (*final(self).writer).out() == (*old(self).writer).out() + value.spec_bytes(),
+    {
+        Ok(self.writer.write_str(value)?)
+    }
+//@end
+}
+impl<'w, W: Write> Serializer for SimpleTypeSerializer<&'w mut W> {
+    type Ok = &'w mut W;
+    type Error = SeError;
+    type SerializeSeq = ();
+    open spec fn ok(&self) -> bool { true }
+//@extract simple_type::SimpleTypeSerializer::serialize_str | src/se/simple_type.rs :: impl<W: Write> Serializer for SimpleTypeSerializer<W> :: fn serialize_str | serves=C13 features=serialize
+    fn serialize_str(self, value: &str) -> (r: Result<Self::Ok, Self::Error>)
+        // C13: a string is written ONLY through the escaping table of its position (escape_list, unit xmlname)
+        ensures r matches Ok(w) ==> (*w).out() == (*old(self.writer)).out() + spec_escape(value.spec_bytes(), p_list(self.target, self.level))
+            && *final(w) == *final(self.writer),
+    { let mut self__ = self;
+        proof {
+            axiom_cow_str_all();
+            if value.spec_bytes().len() == 0 { assert(spec_escape(value.spec_bytes(), p_list(self.target, self.level)) =~= BSeq::empty()); assert((*old(self.writer)).out() + BSeq::empty() =~= (*old(self.writer)).out()); }
+        }
+        if !value.is_empty() {
+            self__.write_str(&escape_list(value, self__.target, self__.level))?;
+        }
+        Ok(self__.writer)
+    }
+//@end
+//@extract simple_type::SimpleTypeSerializer::serialize_unit | src/se/simple_type.rs :: impl<W: Write> Serializer for SimpleTypeSerializer<W> :: fn serialize_unit | serves=C13 features=serialize
+    /// Does not write anything
+    fn serialize_unit(self) -> (r: Result<Self::Ok, Self::Error>)
+        ensures r matches Ok(w) && (*w).out() == (*old(self.writer)).out() && *final(w) == *final(self.writer)
+    {
+        Ok(self.writer)
+    }
+//@end
+//@extract simple_type::SimpleTypeSerializer::serialize_unit_struct | src/se/simple_type.rs :: impl<W: Write> Serializer for SimpleTypeSerializer<W> :: fn serialize_unit_struct | serves=C13 features=serialize
+    /// Does not write anything
+    fn serialize_unit_struct(self, _name: &'static str) -> (r: Result<Self::Ok, Self::Error>)
+        ensures r matches Ok(w) && (*w).out() == (*old(self.writer)).out() && *final(w) == *final(self.writer)
+    {
+        Ok(self.writer)
+    }
+//@end
+}
+
+impl<'w, 'i, W: Write> Serializer for ContentSerializer<'w, 'i, W> {
+    type Ok = WriteResult;
+    type Error = SeError;
+    type SerializeSeq = Seq<'w, 'i, W>;
+    closed spec fn ok(&self) -> bool { self.indent.wf() }
+//@extract content::ContentSerializer::serialize_str | src/se/content.rs :: impl<'w, 'i, W: Write> Serializer for ContentSerializer<'w, 'i, W> :: fn serialize_str | serves=C13,C19 features=serialize
+    fn serialize_str(self, value: &str) -> (r: Result<Self::Ok, Self::Error>)
+        ensures
+            // C19: a string is text in which whitespace counts -- no indent before it (the flag is not even looked at),
+            // none after it; C13: escaped by the Text table of the level in force
+            r matches Ok(x) ==> x is SensitiveText
+                && (*final(self.writer)).out() == (*old(self.writer)).out() + spec_escape(value.spec_bytes(), p_list(QuoteTarget::Text, self.level)),
+    {
+        proof { if value.spec_bytes().len() == 0 { assert(spec_escape(value.spec_bytes(), p_list(QuoteTarget::Text, self.level)) =~= BSeq::empty()); assert((*old(self.writer)).out() + BSeq::empty() =~= (*old(self.writer)).out()); } }
+        if !value.is_empty() {
+            self.into_simple_type_serializer()?.serialize_str(value)?;
+        }
+        Ok(WriteResult::SensitiveText)
+    }
+//@end
+//@extract content::ContentSerializer::serialize_none | src/se/content.rs :: impl<'w, 'i, W: Write> Serializer for ContentSerializer<'w, 'i, W> :: fn serialize_none | serves=C19 features=serialize
+    fn serialize_none(self) -> (r: Result<Self::Ok, Self::Error>)
+        // C19: nothing is written, and no indent may follow (this may be an absent string)
+        ensures r matches Ok(x) && x is SensitiveNothing && *final(self.writer) == *old(self.writer)
+    {
+        // Classify `None` as sensitive to whitespaces, because this can be `Option<String>`.
+        // Unfortunately, we do not known what the type the option contains, so have no chance
+        // to adapt our behavior to it. The safe variant is assume sensitiviness
+        Ok(WriteResult::SensitiveNothing)
+    }
+//@end
+//@extract content::ContentSerializer::serialize_unit | src/se/content.rs :: impl<'w, 'i, W: Write> Serializer for ContentSerializer<'w, 'i, W> :: fn serialize_unit | serves=C19 features=serialize
+    fn serialize_unit(self) -> (r: Result<Self::Ok, Self::Error>)
+        ensures r matches Ok(x) && x is Nothing && *final(self.writer) == *old(self.writer)
+    {
+        Ok(WriteResult::Nothing)
+    }
+//@end
+//@extract content::ContentSerializer::serialize_unit_struct | src/se/content.rs :: impl<'w, 'i, W: Write> Serializer for ContentSerializer<'w, 'i, W> :: fn serialize_unit_struct | serves=C19 features=serialize
+    fn serialize_unit_struct(self, _name: &'static str) -> (r: Result<Self::Ok, Self::Error>)
+        ensures r matches Ok(x) && x is Nothing && *final(self.writer) == *old(self.writer)
+    {
+        Ok(WriteResult::Nothing)
+    }
+//@end
+//@extract content::ContentSerializer::serialize_unit_variant | src/se/content.rs :: impl<'w, 'i, W: Write> Serializer for ContentSerializer<'w, 'i, W> :: fn serialize_unit_variant | serves=C13,C19 features=serialize
+    /// If `variant` is a special `$text` variant, then do nothing, otherwise
+    /// checks `variant` for XML name validity and writes `<variant/>`.
+    fn serialize_unit_variant(
+        self,
+        _name: &'static str,
+        _variant_index: u32,
+        variant: &'static str,
+    ) -> (r: Result<Self::Ok, Self::Error>)
+        ensures
+            // C13: the variant name becomes a tag only after validation; `$text` writes nothing
+            r matches Ok(x) ==> if variant@ == "$text"@ { x is Nothing && *final(self.writer) == *old(self.writer) } else {
+                is_xml_name(variant@) && x is Element
+                && (*final(self.writer)).out() == (*old(self.writer)).out() + self.pre() + tag_empty(variant.spec_bytes(), self.expand_empty_elements) },
+    {
+        if variant == TEXT_KEY {
+            Ok(WriteResult::Nothing)
+        } else {
+            let name = XmlName::try_from(variant)?;
+            self.write_empty(name)
+        }
+    }
+//@end
+//@extract content::ContentSerializer::serialize_seq | src/se/content.rs :: impl<'w, 'i, W: Write> Serializer for ContentSerializer<'w, 'i, W> :: fn serialize_seq | serves=C19 features=serialize
+    fn serialize_seq(self, _len: Option<usize>) -> (r: Result<Self::SerializeSeq, Self::Error>)
+        // C19: an empty sequence writes nothing and allows no indent after it
+        ensures r matches Ok(q) && q.last is SensitiveNothing && q.ser == self
+    {
+        Ok(Seq {
+            ser: self,
+            // If sequence if empty, nothing will be serialized. Because sequence can be of `Option`s
+            // we need to assume that writing indent may change the data and do not write anything
+            last: WriteResult::SensitiveNothing,
+        })
+    }
+//@end
+}
+
+impl<'w, 'i, W: Write> SerializeSeq for Seq<'w, 'i, W> {
+    type Ok = WriteResult;
+    type Error = SeError;
+    closed spec fn ok(&self) -> bool { self.ser.indent.wf() }
+//@extract content::Seq::serialize_element | src/se/content.rs :: impl<'w, 'i, W: Write> SerializeSeq for Seq<'w, 'i, W> :: fn serialize_element | serves=C19 features=serialize
+    fn serialize_element<T>(&mut self, value: &T) -> (r: Result<(), Self::Error>)
+    where
+        T: ?Sized + Serialize,
+        ensures
+            // C19: the indent flag for the NEXT item is set exactly when this item was markup or nothing -- never after text
+            r is Ok ==> final(self).ser.write_indent == (final(self).last is Element || final(self).last is Nothing),
+            *final(final(self).ser.writer) == *final(old(self).ser.writer),
+            final(self).ser.level == old(self).ser.level, final(self).ser.expand_empty_elements == old(self).ser.expand_empty_elements,
+    {
+        self.last = value.serialize(self.ser.new_seq_element_serializer(self.last.is_text()))?;
+        // Write indent for next element if indents are used
+        self.ser.write_indent = self.last.allow_indent();
+        Ok(())
+    }
+//@end
+//@extract content::Seq::end | src/se/content.rs :: impl<'w, 'i, W: Write> SerializeSeq for Seq<'w, 'i, W> :: fn end | serves=C19 features=serialize
+    fn end(self) -> (r: Result<Self::Ok, Self::Error>)
+        // C19: a sequence is classified as its last item
+        ensures r matches Ok(x) && x == self.last && *final(self.ser.writer) == *old(self.ser.writer)
+    {
+        Ok(self.last)
+    }
+//@end
+}
+
+impl<'w, 'k, W: Write> Serializer for ElementSerializer<'w, 'k, W> {
+    type Ok = WriteResult;
+    type Error = SeError;
+    type SerializeSeq = Self;
+    /// the tag name was validated when the serializer was made (XmlName::try_from)
+    closed spec fn ok(&self) -> bool { self.ser.indent.wf() && is_xml_name(self.key.0@) }
+//@extract element::ElementSerializer::serialize_str | src/se/element.rs :: impl<'w, 'k, W: Write> Serializer for ElementSerializer<'w, 'k, W> :: fn serialize_str | serves=C13 features=serialize
+    fn serialize_str(self, value: &str) -> (r: Result<Self::Ok, Self::Error>)
+        ensures r matches Ok(x) ==> x is Element,
+            // C13: the empty string is `<key/>`
+            value.spec_bytes().len() == 0 && r is Ok ==> (*final(self.ser.writer)).out() == (*old(self.ser.writer)).out() + self.ser.pre() + tag_empty(self.key.0.spec_bytes(), self.ser.expand_empty_elements),
+    {
+        if value.is_empty() {
+            self.ser.write_empty(self.key)
+        } else {
+            self.ser
+                .write_wrapped(self.key, |ser| ser.serialize_str(value))
+        }
+    }
+//@end
+//@extract element::ElementSerializer::serialize_none | src/se/element.rs :: impl<'w, 'k, W: Write> Serializer for ElementSerializer<'w, 'k, W> :: fn serialize_none | serves=C13 features=serialize
+    /// By serde contract we should serialize key of [`None`] values. If someone
+    /// wants to skip the field entirely, he should use
+    /// `#[serde(skip_serializing_if = "Option::is_none")]`.
+    ///
+    /// In XML when we serialize field, we write field name as:
+    /// - element name, or
+    /// - attribute name
+    ///
+    /// and field value as
+    /// - content of the element, or
+    /// - attribute value
+    ///
+    /// So serialization of `None` works the same as [serialization of `()`](#method.serialize_unit)
+    fn serialize_none(self) -> (r: Result<Self::Ok, Self::Error>)
+        ensures r matches Ok(x) ==> x is Element
+            && (*final(self.ser.writer)).out() == (*old(self.ser.writer)).out() + self.ser.pre() + tag_empty(self.key.0.spec_bytes(), self.ser.expand_empty_elements),
+    {
+        self.serialize_unit()
+    }
+//@end
+//@extract element::ElementSerializer::serialize_unit | src/se/element.rs :: impl<'w, 'k, W: Write> Serializer for ElementSerializer<'w, 'k, W> :: fn serialize_unit | serves=C13 features=serialize
+    fn serialize_unit(self) -> (r: Result<Self::Ok, Self::Error>)
+        ensures r matches Ok(x) ==> x is Element
+            && (*final(self.ser.writer)).out() == (*old(self.ser.writer)).out() + self.ser.pre() + tag_empty(self.key.0.spec_bytes(), self.ser.expand_empty_elements),
+    {
+        self.ser.write_empty(self.key)
+    }
+//@end
+//@extract element::ElementSerializer::serialize_unit_struct | src/se/element.rs :: impl<'w, 'k, W: Write> Serializer for ElementSerializer<'w, 'k, W> :: fn serialize_unit_struct | serves=C13 features=serialize
+    fn serialize_unit_struct(self, _name: &'static str) -> (r: Result<Self::Ok, Self::Error>)
+        ensures r matches Ok(x) ==> x is Element
+            && (*final(self.ser.writer)).out() == (*old(self.ser.writer)).out() + self.ser.pre() + tag_empty(self.key.0.spec_bytes(), self.ser.expand_empty_elements),
+    {
+        self.ser.write_empty(self.key)
+    }
+//@end
+//@extract element::ElementSerializer::serialize_unit_variant | src/se/element.rs :: impl<'w, 'k, W: Write> Serializer for ElementSerializer<'w, 'k, W> :: fn serialize_unit_variant | serves=C13 features=serialize
+    /// Writes a tag with name [`Self::key`] and content of unit variant inside.
+    /// If variant is a special `$text` value, then empty tag `<key/>` is written.
+    /// Otherwise a `<key>variant</key>` is written.
+    fn serialize_unit_variant(
+        self,
+        name: &'static str,
+        variant_index: u32,
+        variant: &'static str,
+    ) -> (r: Result<Self::Ok, Self::Error>)
+        ensures r matches Ok(x) ==> x is Element,
+            variant@ == "$text"@ && r is Ok ==> (*final(self.ser.writer)).out() == (*old(self.ser.writer)).out() + self.ser.pre() + tag_empty(self.key.0.spec_bytes(), self.ser.expand_empty_elements),
+    {
+        if variant == TEXT_KEY {
+            self.ser.write_empty(self.key)
+        } else {
+            self.ser.write_wrapped(self.key, |ser| {
+                ser.serialize_unit_variant(name, variant_index, variant)
+            })
+        }
+    }
+//@end
+//@extract element::ElementSerializer::serialize_seq | src/se/element.rs :: impl<'w, 'k, W: Write> Serializer for ElementSerializer<'w, 'k, W> :: fn serialize_seq | serves=C13 features=serialize
+    fn serialize_seq(self, _len: Option<usize>) -> (r: Result<Self::SerializeSeq, Self::Error>)
+        ensures r matches Ok(q) && q == self
+    {
+        Ok(self)
+    }
+//@end
+}
+// generic over `T: Serialize`: inherent (see the model traits above)
+impl<'w, W: Write> SimpleTypeSerializer<&'w mut W> {
+//@extract simple_type::SimpleTypeSerializer::serialize_newtype_variant | src/se/simple_type.rs :: impl<W: Write> Serializer for SimpleTypeSerializer<W> :: fn serialize_newtype_variant | serves=C13 features=serialize n15=1
+//@rewrite Result<Self::Ok, SeError> ==> Result<&'w mut W, SeError>
+    /// We cannot store both a variant discriminant and a variant value,
+    /// so serialization of enum newtype variant returns `Err(Unsupported)`
+    fn serialize_newtype_variant<T: ?Sized + Serialize>(
+        self,
+        name: &'static str,
+        _variant_index: u32,
+        variant: &'static str,
+        _value: &T,
+    ) -> (r: Result<&'w mut W, SeError>)
+        ensures r is Err
+    {
+        Err(SeError::Unsupported(
+            errmsg_(),
+        ))
+    }
+//@end
+}
+// generic over `T: Serialize`: inherent (see the model traits above)
+impl<'w, 'i, W: Write> ContentSerializer<'w, 'i, W> {
+//@extract content::ContentSerializer::serialize_some | src/se/content.rs :: impl<'w, 'i, W: Write> Serializer for ContentSerializer<'w, 'i, W> :: fn serialize_some | serves=C19 features=serialize
+//@rewrite Result<Self::Ok, Self::Error> ==> Result<WriteResult, SeError>
+    fn serialize_some<T: ?Sized + Serialize>(self, value: &T) -> (r: Result<WriteResult, SeError>)
+        requires self.ok()
+    {
+        value.serialize(self)
+    }
+//@end
+//@extract content::ContentSerializer::serialize_newtype_struct | src/se/content.rs :: impl<'w, 'i, W: Write> Serializer for ContentSerializer<'w, 'i, W> :: fn serialize_newtype_struct | serves=C19 features=serialize
+//@rewrite Result<Self::Ok, Self::Error> ==> Result<WriteResult, SeError>
+    fn serialize_newtype_struct<T: ?Sized + Serialize>(
+        self,
+        _name: &'static str,
+        value: &T,
+    ) -> (r: Result<WriteResult, SeError>)
+        requires self.ok()
+    {
+        value.serialize(self)
+    }
+//@end
+//@extract content::ContentSerializer::serialize_newtype_variant | src/se/content.rs :: impl<'w, 'i, W: Write> Serializer for ContentSerializer<'w, 'i, W> :: fn serialize_newtype_variant | serves=C13,C19 features=serialize
+//@rewrite Result<Self::Ok, Self::Error> ==> Result<WriteResult, SeError>
+    /// If `variant` is a special `$text` variant, then writes `value` as a `xs:simpleType`,
+    /// otherwise checks `variant` for XML name validity and writes `value` as a new
+    /// `<variant>` element.
+    fn serialize_newtype_variant<T: ?Sized + Serialize>(
+        self,
+        _name: &'static str,
+        _variant_index: u32,
+        variant: &'static str,
+        value: &T,
+    ) -> (r: Result<WriteResult, SeError>)
+        requires self.ok()
+        ensures
+            // C13: the variant name becomes a tag only after validation; C19: `$text` content is text in which whitespace
+            // counts (no indent after it), an element is markup
+            r matches Ok(x) ==> if variant@ == "$text"@ { x is SensitiveText && self.allow_primitive } else { x is Element && is_xml_name(variant@) },
+    {
+        if variant == TEXT_KEY {
+            value.serialize(self.into_simple_type_serializer()?)?;
+            Ok(WriteResult::SensitiveText)
+        } else {
+            value.serialize(ElementSerializer {
+                key: XmlName::try_from(variant)?,
+                ser: self,
+            })?;
+            Ok(WriteResult::Element)
+        }
+    }
+//@end
+}
+// generic over `T: Serialize`: inherent (see the model traits above)
+impl<'w, 'k, W: Write> ElementSerializer<'w, 'k, W> {
+//@extract element::ElementSerializer::serialize_some | src/se/element.rs :: impl<'w, 'k, W: Write> Serializer for ElementSerializer<'w, 'k, W> :: fn serialize_some | serves=C13 features=serialize
+//@rewrite Result<Self::Ok, Self::Error> ==> Result<WriteResult, SeError>
+    fn serialize_some<T: ?Sized + Serialize>(self, value: &T) -> (r: Result<WriteResult, SeError>)
+        requires self.ok()
+    {
+        value.serialize(self)
+    }
+//@end
+//@extract element::ElementSerializer::serialize_newtype_struct | src/se/element.rs :: impl<'w, 'k, W: Write> Serializer for ElementSerializer<'w, 'k, W> :: fn serialize_newtype_struct | serves=C13 features=serialize
+//@rewrite Result<Self::Ok, Self::Error> ==> Result<WriteResult, SeError>
+    fn serialize_newtype_struct<T: ?Sized + Serialize>(
+        self,
+        _name: &'static str,
+        value: &T,
+    ) -> (r: Result<WriteResult, SeError>)
+        requires self.ok()
+    {
+        value.serialize(self)
+    }
+//@end
+//@extract element::ElementSerializer::serialize_newtype_variant | src/se/element.rs :: impl<'w, 'k, W: Write> Serializer for ElementSerializer<'w, 'k, W> :: fn serialize_newtype_variant | serves=C13 features=serialize n15=1
+//@rewrite Result<Self::Ok, Self::Error> ==> Result<WriteResult, SeError>
+    fn serialize_newtype_variant<T: ?Sized + Serialize>(
+        self,
+        name: &'static str,
+        _variant_index: u32,
+        variant: &'static str,
+        _value: &T,
+    ) -> (r: Result<WriteResult, SeError>)
+        ensures r is Err
+    {
+        Err(SeError::Unsupported(
+            errmsg_(),
+        ))
     }
 //@end
 }
